@@ -637,6 +637,10 @@ class Axes(AbstractAxes, list):
         if newax.size != curax.size:
             raise ValueError("set axis: size mismatch.\nExpected: {}, got: {}".format(curax.size, newax.size))
 
+        # the new axis may carry another name, but not the name of another axis
+        if newax.name in [ax.name for ax in self if ax is not curax]:
+            raise ValueError("set axis: duplicate dimension name: {}".format(newax.name))
+
         list.__setitem__(self, k, newax)
 
     def insert(self, pos, ax):
